@@ -17,7 +17,8 @@ from . import core
 
 PRIMS = ('int', 'str', 'bool')
 DELIMS = ['.', '.', '.', '_', '-', '/', '__', ':', '$', '..']
-NAMES = ['a', 'b', 'c', 'ab', 'a_b', 'x', 'y', 'p', 'q', 'c1', 'A', 'item', 'ab_c', 'i', 's', 'n0', 'B_', 'zz', 'val', 'a1']
+NAMES = ['a', 'b', 'c', 'ab', 'a_b', 'x', 'y', 'p', 'q', 'c1', 'A', 'item', 'ab_c', 'i', 's', 'n0', 'B_', 'zz', 'val', 'a1',
+         'wsdl', 'WSDL', 'xwsdl', 'wsdl2']
 
 
 def cps(s):
@@ -25,6 +26,21 @@ def cps(s):
 
 
 EXT = ('dec',)                    # leaf kinds outside the model: T3 only
+INT_KINDS = {'i8': 'Integer8', 'u8': 'UnsignedInteger8', 'i16': 'Integer16', 'u16': 'UnsignedInteger16',
+             'i32': 'Integer32', 'u32': 'UnsignedInteger32', 'i64': 'Integer64', 'u64': 'UnsignedInteger64'}
+
+
+def py_of(f):
+    """Python attribute name of a member; f['n'] is the name it has in keys (its sub_name when 'py' is given)"""
+    return uncps(f['py']) if 'py' in f else uncps(f['n'])
+
+
+def is_wsdl_qs(qs):
+    """the harness's own reading of '?wsdl': the query is a request for the interface document iff the text before its
+    first '=' is 'wsdl' (any case)"""
+    return qs.split('=')[0].lower() == 'wsdl'
+
+
 EXT_ALL = ('dt', 'date', 'dec')   # kinds drawn for the extended signatures (dt, date are modelled: shared leaf codec)       # leaf kinds beyond the model: exercised by T3 only (as arguments), dt also as out-header
 
 
@@ -93,6 +109,7 @@ class Impl:
     """drives the real spyne objects; one instance per signature (list of root members)"""
     _cache = {}
     _prims = {}
+    _subs = {}
 
     def __init__(self, fields, cfg=None, ret=None, hdr_fields=None):
         from spyne import Application, Service, rpc, ComplexModel, Array, Integer, Unicode, Boolean, ByteArray, \
@@ -108,7 +125,7 @@ class Impl:
         cfg = cfg or {'strict': False, 'soft': False, 'delim': cps('.')}
         self.cfg = cfg
         types = [self.type_of(f) for f in fields]
-        names = [uncps(f['n']) for f in fields]
+        names = [py_of(f) for f in fields]
         self.got = got = {}
         self.retval = None
         self.out_header = None
@@ -140,21 +157,35 @@ class Impl:
         c = self.classes.get(('base', t['cid']))
         if c is None:
             c = self.Meta('K%d' % t['cid'], (self.ComplexModel,), {
-                '_type_info': [(uncps(f['n']), self.type_of(f)) for f in t['fields']], '__namespace__': 'tns'})
+                '_type_info': [(py_of(f), self.type_of(f)) for f in t['fields']], '__namespace__': 'tns'})
             self.classes[('base', t['cid'])] = c
         return c
 
     def type_of(self, f):
+        c = self.type_of0(f)
+        if 'py' in f:       # the member goes by a sub_name in keys
+            cache = Impl._subs if f['t']['k'] != 'obj' else self.classes
+            key = ('sub', id(c), uncps(f['n']))
+            c2 = cache.get(key)
+            if c2 is None:
+                c2 = cache[key] = (c, c.customize(sub_name=uncps(f['n'])))
+            c = c2[1]
+        return c
+
+    def type_of0(self, f):
         t = f['t']
         inf = 'unbounded'
         if t['k'] != 'obj':
             # customised primitives are shared by all signatures of a run (spyne keeps every variant of a
             # type in per-class registries; thousands of throw-away variants make customize() slow)
-            pkey = (t['k'], f['many'], f.get('wrap'), f['min'], f['max'], f.get('nillable', True))
+            pkey = (t['k'], t.get('kind'), f['many'], f.get('wrap'), f['min'], f['max'], f.get('nillable', True))
             nil = {} if f.get('nillable', True) else {'nillable': False}
             c = Impl._prims.get(pkey)
             if c is None:
                 base = self.P[t['k']]
+                if t['k'] == 'int' and t.get('kind') in INT_KINDS:
+                    import spyne
+                    base = getattr(spyne, INT_KINDS[t['kind']])
                 if not f['many']:
                     c = base(min_occurs=f['min'], **nil) if (f['min'] or nil) else base
                 elif f.get('wrap') == 'array':
@@ -183,7 +214,7 @@ class Impl:
         if many:
             return {'l': [self.to_val(e, False, t) for e in x]}
         if t['k'] == 'obj':
-            return {'o': [[f['n'], self.to_val(getattr(x, uncps(f['n']), None), f['many'], f['t'])] for f in t['fields']]}
+            return {'o': [[f['n'], self.to_val(getattr(x, py_of(f), None), f['many'], f['t'])] for f in t['fields']]}
         return val_of_native(x)
 
     def from_val(self, v, many, t):
@@ -194,7 +225,7 @@ class Impl:
         if t['k'] == 'obj':
             inst = self.cls_of(t)()
             for (n, fv), f in zip(v['o'], t['fields']):
-                setattr(inst, uncps(n), self.from_val(fv, f['many'], f['t']))
+                setattr(inst, py_of(f), self.from_val(fv, f['many'], f['t']))
             return inst
         return native_leaf(v)
 
@@ -217,6 +248,8 @@ class Impl:
             return {'crash': type(e).__name__}, st, b''
         if st.get('status', '').startswith('200') and 'args' in self.got:
             return {'ok': self.root_val(self.got['args'])}, st, body
+        if 'args' not in self.got and body.startswith(b'<?xml') and b'definitions' in body[:400]:
+            return {'wsdl': True}, st, body         # the transport answered with the interface document
         if st.get('status', '').startswith('400') and body.startswith(b'Client.'):
             return {'fault': 'Client.ValidationError'}, st, body
         return {'crash': body[:40].decode('latin1')}, st, body
@@ -236,13 +269,13 @@ class Impl:
             return {'crash': 'Fault'}
         except Exception as e:
             return {'crash': type(e).__name__}
-        return {'ok': self.root_val([getattr(inst, uncps(f['n']), None) for f in self.fields])}
+        return {'ok': self.root_val([getattr(inst, py_of(f), None) for f in self.fields])}
 
     def encode_val(self, val):
         """object_to_simple_dict on the request object built from `val`; canonical list sorted by key"""
         inst = self.in_message()
         for (n, fv), f in zip(val['o'], self.fields):
-            setattr(inst, uncps(n), self.from_val(fv, f['many'], f['t']))
+            setattr(inst, py_of(f), self.from_val(fv, f['many'], f['t']))
         d = self.app.in_protocol.object_to_simple_dict(self.in_message, inst)
         out = []
         for k, v in d.items():
@@ -275,8 +308,21 @@ class Impl:
         res = []
         for k, m in t.items():
             many = m.type.Attributes.max_occurs > 1
-            res.append([cps(k), [cps(p) for p in m.path], bool(m.can_be_empty), bool(many)])
+            res.append([cps(k), [cps(p) for p in self.key_path(m.path)], bool(m.can_be_empty), bool(many)])
         return sorted(res)
+
+    def key_path(self, path):
+        """a path of Python member names as key names (sub_names)"""
+        out, fields = [], self.fields
+        for p in path:
+            f = next((g for g in fields if py_of(g) == p), None)
+            if f is None:
+                out.append(p)
+                fields = []
+                continue
+            out.append(uncps(f['n']))
+            fields = f['t']['fields'] if f['t']['k'] == 'obj' else []
+        return out
 
 
 def get_impl(fields, cfg=None, ret=None, hdr_fields=None):
@@ -294,13 +340,17 @@ def P(kind):
     return {'k': kind}
 
 
-def fld(name, t, many=False, wrap=None, mn=0, mx=1, nillable=True):
+def fld(name, t, many=False, wrap=None, mn=0, mx=1, nillable=True, py=None):
+    """`py`: the Python name of the member; `name` is then its sub_name (the name it has in keys)"""
     if many and wrap is None:
         wrap = 'array'
     if many and wrap == 'array':
         mn, mx = 0, None
-    return {'n': cps(name), 'many': many, 'wrap': wrap, 'min': mn, 'max': (mx if many else 1), 't': t,
-            'nillable': nillable}
+    f = {'n': cps(name), 'many': many, 'wrap': wrap, 'min': mn, 'max': (mx if many else 1), 't': t,
+         'nillable': nillable}
+    if py is not None:
+        f['py'] = cps(py)
+    return f
 
 
 def obj(cid, fields):
@@ -315,6 +365,20 @@ def model_fields(fields):
     def mf(f):
         return {'n': f['n'], 'many': f['many'], 'min': f['min'], 'max': f['max'], 'nillable': f.get('nillable', True),
                 't': ty(f['t'])}
+    return [mf(f) for f in fields]
+
+
+def decl_fields(fields):
+    """the declared signature for the Lean driver: model_fields plus the Python names of members with a sub_name"""
+    def ty(t):
+        return t if t['k'] != 'obj' else {'k': 'obj', 'cid': t['cid'], 'fields': [mf(f) for f in t['fields']]}
+
+    def mf(f):
+        d = {'n': f['n'], 'many': f['many'], 'min': f['min'], 'max': f['max'], 'nillable': f.get('nillable', True),
+             't': ty(f['t'])}
+        if 'py' in f:
+            d['py'] = f['py']
+        return d
     return [mf(f) for f in fields]
 
 
@@ -385,6 +449,9 @@ class Gen:
                 mx = rng.choice([None, 2, 5, 20]) if wrap == 'occurs' else None
                 mn = 1 if (not many and rng.random() < 0.12) else 0
                 out.append(fld(nm, P(kind), many, wrap, mn, mx))
+        for f in out:       # members that go by a sub_name (at every depth, objects and arrays included)
+            if rng.random() < 0.2:
+                f['py'] = cps('py_' + uncps(f['n']) + rng.choice(['', '_', 'x']))
         return out
 
     def new_class(self, depth):
@@ -627,15 +694,52 @@ def measure_facts():
         f['intEmptyIsNone'] = h.from_unicode(Integer, '') is None
     except Exception:
         f['intEmptyIsNone'] = False
+    # whose sub_name names a member of a nested object in the member table
+    w = fact_witness('subNameScope')
+    try:
+        keys = set(uncps(k) for k, _, _, _ in Impl(w['fields'], cfg0).sti())
+    except Exception:
+        keys = set()
+    f['subNameScope'] = ('member' if keys == {'o', 'o.qty', 'o.nm'} else
+                         'container' if keys == {'o', 'o.o', 'o.nm'} or keys == {'o', 'o.o'} else 'other')
+    # when a GET is answered with the WSDL
+    from spyne.server.wsgi import WsgiApplication
+    wa = Impl([fld('a', P('int'))], cfg0).wsgi
+
+    def isw(qs):
+        try:
+            return bool(wa.is_wsdl_request({'REQUEST_METHOD': 'GET', 'QUERY_STRING': qs, 'PATH_INFO': '/f'}))
+        except Exception:
+            return None
+    obs = tuple(isw(q) for q in WSDL_PROBES)
+    f['wsdlRule'] = ('firstName' if obs == tuple(is_wsdl_qs(q) for q in WSDL_PROBES) else
+                     'suffix' if obs == tuple(q.lower().endswith('wsdl') for q in WSDL_PROBES) else 'other')
     return f
 
 
-GOOD = {'keyOrder': 'natural', 'tagScope': 'perBranch', 'freqScope': 'perMember'}
+WSDL_PROBES = ['wsdl', 'WSDL', 'Wsdl=1&a=2', 'wsdl=', 'a=1&wsdl', 'a=x.wsdl', 'a=wsdl', 'wsdl&a=1', 'xwsdl', 'wsdlx=1', '',
+               'a=1', 'a=1&b=WSDL', 'wsdl=1&a=wsdl', 'a.wsdl=1', 'b=2&wsdl=1']
+
+
+GOOD = {'keyOrder': 'natural', 'tagScope': 'perBranch', 'freqScope': 'perMember', 'subNameScope': 'member',
+        'wsdlRule': 'firstName'}
 GOOD_C05 = {'freqTouch': True}      # soft-validation switches: reported by part_c05 (property C05), modelled either way
 
 
 def fact_witness(k):
     inner = obj(1, [fld('x', P('int')), fld('y', P('str'))])
+    if k == 'subNameScope':
+        item = obj(4, [fld('nm', P('str')), fld('qty', P('int'), py='quantity')])
+        val = {'o': [[cps('o'), {'o': [[cps('nm'), {'s': cps('pen')}], [cps('qty'), {'i': '3'}]]}]]}
+        return {'op': 'documented', 'fields': [fld('o', item, py='order')], 'cfg': {'strict': False, 'soft': False, 'delim': cps('.')},
+                'qs': 'o.nm=pen&o.qty=3', 'expected': val}
+    if k == 'wsdlRule':
+        doc = obj(5, [fld('name', P('str')), fld('kind', P('str'))])
+        val = {'o': [[cps('doc'), {'o': [[cps('name'), {'s': cps('stock.wsdl')}], [cps('kind'), {'s': cps('soap')}]]}],
+                     [cps('n'), {'i': '1'}]]}
+        return {'op': 'documented', 'fields': [fld('doc', doc), fld('n', P('int'))],
+                'cfg': {'strict': False, 'soft': False, 'delim': cps('.')},
+                'qs': 'doc.kind=soap&n=1&doc.name=stock.wsdl', 'expected': val}
     if k == 'freqTouch':
         mand = obj(3, [fld('x', P('int'), False, None, 1, 1, nillable=False), fld('y', P('str'))])
         return {'op': 'verdict', 'fields': [fld('o', mand)], 'cfg': {'strict': False, 'soft': True, 'delim': cps('.')},
@@ -672,11 +776,13 @@ def facts03 : Facts03 where
   plusIsSpace := %s
   boolFormWords := %s
   intEmptyIsNone := %s
+  subNameScope := .%s
+  wsdlRule := .%s
 
 end SpyneModel.Generated
 ''' % (f['keyOrder'], f['tagScope'], f['freqScope'], b(f['freqTouch']),
        '"%s".toList' % f['emptyMarker'], ', '.join(ch(c) for c in f['pairSeps']),
-       b(f['plusIsSpace']), b(f['boolFormWords']), b(f['intEmptyIsNone']))
+       b(f['plusIsSpace']), b(f['boolFormWords']), b(f['intEmptyIsNone']), f['subNameScope'], f['wsdlRule'])
 
 
 # ------------------------------------------------------------------------------------ fixed corpus
@@ -769,6 +875,8 @@ def run(ctx):
         if i and i % 100 == 0:
             ctx.log('%d signatures, %d queries' % (i, len(Q)))
         run_signature(ctx, g, sig, add, f, model_ok)
+    t3_wsdl(ctx, add)
+    t3_history(ctx, add)
     t2_returns(ctx, g, add)
     ctx.log('implementation side done: %d queries' % len(Q))
 
@@ -781,7 +889,7 @@ def run(ctx):
         a, b = impl, mod
         if q['op'] in ('flat.decode', 'http.get'):
             a, b = outcome_class(impl), outcome_class(mod)
-        if q['op'] in ('flat.encode', 'sti'):
+        if q['op'] in ('flat.encode', 'sti', 'sti.decl'):
             b = sorted(mod)
         if a != b:
             ctx.disagree(q['op'], show_q(q), a, b)
@@ -791,7 +899,8 @@ def run(ctx):
         'POST form bodies / multipart need werkzeug (not installed): only the GET query-string path is driven',
         'urllib.parse.unquote/quote, int(), str.lower, list.insert, dict and sorted() are CPython oracles mirrored by the model and diffed in T2',
         'soft validation: acceptance of conformant documented requests is tested (T2/T3), only "soft never alters the value" is proved',
-        'sub_name, default values, self-referencing classes, File/ByteArray members, HttpPattern routing are outside the model',
+        'members are identified by their key name (sub_name if declared); Python names are a relabelling done by the harness; '
+        'default values, self-referencing classes, File members, HttpPattern routing are outside the model',
     ]
     ctx.cov['rule'] = (
         'signature = nested object/array shape (depth<=4 thorough, <=3 quick; members int/str/bool, wrapped and '
@@ -826,7 +935,7 @@ def check_documented(ctx, fields, cfg, qs, expected_val, report=True, what='', f
     impl = get_impl(fields, cfg)
     r, st, body = impl.get(qs)
     ctx.cov['traces_validated_against_impl'] += 1
-    exp = {'ok': strip_marker(expected_val)}
+    exp = {'wsdl': True} if is_wsdl_qs(qs) else {'ok': strip_marker(expected_val)}
     if r == exp:
         return None
     msg = 'query %r: expected %s, got %s' % (qs[:200], core.canon(exp)[:300], core.canon(r)[:300])
@@ -860,6 +969,9 @@ def run_signature(ctx, g, sig, add, facts, model_ok):
     # the member table
     if use_model:
         add({'op': 'sti', 'delim': cps(delim), 'fields': mf}, get_impl(sig, base_cfg).sti())
+        if has_feature(sig, lambda f: 'py' in f):
+            ctx.hit('sig:sub_name')
+            add({'op': 'sti.decl', 'delim': cps(delim), 'fields': decl_fields(sig)}, get_impl(sig, base_cfg).sti())
     n_val = 5 if ctx.thorough else 3
     for vi in range(n_val):
         val = g.value(sig, 4)
@@ -884,7 +996,11 @@ def run_signature(ctx, g, sig, add, facts, model_ok):
                         add({'op': 'http.get', 'cfg': cfg, 'fields': mf, 'qs': cps(qs)}, r, nontrivial)
                     if conformant:
                         ctx.cov['traces_validated_against_impl'] += 1
-                        exp = {'ok': strip_marker(val)}
+                        exp = {'wsdl': True} if is_wsdl_qs(qs) else {'ok': strip_marker(val)}
+                        if is_wsdl_qs(qs):
+                            ctx.hit('case:genuine-wsdl-request')
+                        elif 'wsdl' in qs.lower():
+                            ctx.hit('case:wsdl-inside-query:' + ('last' if qs.lower().endswith('wsdl') else 'elsewhere'))
                         if r != exp:
                             feat = feature_of(sig, pairs, cfg)
                             fid = 'documented:%s:%s' % ('strict' if strict else 'lenient', feat)
@@ -1098,6 +1214,145 @@ def t2_small(ctx, add):
         add({'op': 'qs.unquote', 's': cps(q)}, cps(unquote(q)))
         if unquote(q) != s:
             ctx.finding('percent-coding', 'unquote(quote(%r)) = %r' % (s, unquote(q)), {'op': 'quote', 's': cps(s)})
+
+
+def history_setup(obj_):
+    """warm endpoint + a member added to an argument class afterwards; returns (impl, new signature)"""
+    import copy
+    sig = copy.deepcopy(obj_['fields0'])
+    impl = Impl(sig, obj_['cfg'])           # a fresh long-lived endpoint (not from the cache)
+    r0, _, _ = impl.get(obj_['warm'])
+    t = sig[0]['t']
+    for _ in range(obj_['depth'] - 1):
+        t = next(f for f in t['fields'] if f['t']['k'] == 'obj')['t']
+    cls = impl.cls_of(t)
+    newf = copy.deepcopy(obj_['new'])
+    if obj_['how'] == 'append':
+        cls.append_field(py_of(newf), impl.type_of(newf))
+        t['fields'].append(newf)
+    else:
+        cls.insert_field(obj_['idx'], py_of(newf), impl.type_of(newf))
+        t['fields'].insert(obj_['idx'], newf)
+    return impl, sig, r0
+
+
+def t3_history(ctx, add, c05=False):
+    """history dimension: an endpoint that has already served a request, then `append_field` / `insert_field` on a class
+    of its argument, then requests that use the new member: valid values are delivered, values outside the facets of the
+    new member are rejected under soft validation"""
+    rng = ctx.rng
+    S, I = P('str'), P('int')
+    n = (24 if ctx.thorough else 10)
+    for ci in range(n):
+        depth = rng.choice([1, 1, 2])
+        inner = obj(950, [fld('name', S), fld('c', I)])
+        item = inner if depth == 1 else obj(951, [fld('tag', S), fld('sub', inner, rng.random() < 0.4)])
+        many = rng.random() < 0.4
+        wrap = rng.choice(['array', 'occurs']) if many else None
+        sig0 = [fld('item', item, many, wrap, 0, None if many else 1), fld('k', I)]
+        kind = rng.choice(['i8', 'u8', 'i16', None])
+        newt = dict(I, kind=kind) if kind else rng.choice([I, S])
+        newf = fld(rng.choice(['qty', 'z', 'n2']), newt, py=rng.choice([None, None, 'py_new']))
+        how = rng.choice(['append', 'append', 'insert'])
+        soft = True if c05 else rng.random() < 0.5
+        strict = rng.random() < 0.3
+        cfg = {'strict': strict, 'soft': soft, 'delim': cps('.')}
+        pre = 'item[0]' if many else 'item'
+        subp = lambda f: ('sub[0]' if f['many'] else 'sub')
+        path = pre if depth == 1 else pre + '.' + subp(next(f for f in item['fields'] if f['n'] == cps('sub')))
+        hobj = {'op': 'history', 'fields0': sig0, 'cfg': cfg, 'depth': depth, 'new': newf, 'how': how, 'idx': rng.choice([0, 1]),
+                'warm': path + '.name=x&k=1'}
+        try:
+            impl, sig, r0 = history_setup(hobj)
+        except Exception as e:
+            ctx.finding('history:setup-crash', 'append_field/insert_field after a served request raised %s' % type(e).__name__, hobj)
+            continue
+        ctx.hit('history:%s:depth=%d:%s' % (how, depth, 'array' if many else 'single'))
+        if 'ok' not in r0:
+            ctx.finding('history:warm-request', 'warm request %r not served: %s' % (hobj['warm'], core.canon(r0)[:200]), hobj)
+            continue
+        lo, hi = {'i8': (-128, 127), 'u8': (0, 255), 'i16': (-32768, 32767)}.get(kind, (None, None))
+        nk = uncps(newf['n'])
+        tries = [('5', True)]
+        if newt['k'] == 'int':
+            tries += [(str(hi), True), (str(lo), True)] if kind else [('999', True)]
+            if kind and soft:
+                tries += [(str(hi + 1), False), (str(lo - 1), False), ('999999', False)]
+            if soft:
+                tries += [('abc', False)]
+        else:
+            tries += [('wsdl', True), ('', True)]
+        mf = model_fields(sig)
+        for text, good in tries:
+            qs = '%s.name=x&k=1&%s.%s=%s' % (path, path, nk, text)
+            if rng.random() < 0.5:
+                qs = '%s.%s=%s&k=1&%s.name=x' % (path, nk, text, path)
+            r, st, body = impl.get(qs)
+            ctx.cov['traces_validated_against_impl'] += 1
+            add({'op': 'http.get', 'cfg': cfg, 'fields': mf, 'qs': cps(qs)}, r)
+            ctx.hit('history:%s' % ('valid' if good else 'outside-facets'))
+            if good:
+                leaf = {'i': text} if newt['k'] == 'int' else {'s': cps(text)}
+                okv = 'ok' in r and core.canon(leaf) in core.canon(r) and core.canon({'s': cps('x')}) in core.canon(r)
+                if not okv:
+                    ctx.finding('history:%s:new-member-not-delivered' % how,
+                                'after a served request and %s_field(%r) on the argument class, %r does not deliver the '
+                                'new member: %s' % (how, nk, qs, core.canon(r)[:300]), dict(hobj, qs=qs, good=True, leaf=leaf))
+            elif 'fault' not in r:
+                ctx.finding('history:%s:new-member-not-validated' % how,
+                            'after a served request and %s_field(%r, %s) on the argument class, %r (outside the facets of '
+                            'the new member) is not rejected by soft validation: %s' % (how, nk, kind or newt['k'], qs, core.canon(r)[:300]),
+                            dict(hobj, qs=qs, good=False))
+
+
+def t3_wsdl(ctx, add):
+    """the transport decides before the protocol whether a GET asks for the WSDL: keys and values that end in / contain
+    'wsdl' in EVERY position of the query string; only a query whose text before the first '=' is 'wsdl' is one"""
+    import itertools
+    rng = ctx.rng
+    S, I = P('str'), P('int')
+    doc = obj(901, [fld('name', S), fld('kind', S), fld('wsdl', S), fld('w', S, py='WSDL')])
+    sigs = [[fld('doc', doc), fld('n', I)],
+            [fld('doc', doc), fld('wsdl', S), fld('n', I)],
+            [fld('WSDL', S), fld('xwsdl', S), fld('d', doc, True)]]
+    words = ['stock.wsdl', 'WSDL', 'wsdl', 'x wsdl', 'wsdl=', '=wsdl', 'a', 'Wsdl&', 'my.WSDL', '']
+    for sig in sigs:
+        mf = model_fields(sig)
+        for soft in (False, True):
+            cfg = {'strict': False, 'soft': soft, 'delim': cps('.')}
+            impl = get_impl(sig, cfg)
+            for rep in range(6 if ctx.thorough else 3):
+                val = {'o': []}
+                for f in sig:
+                    if f['t']['k'] == 'obj':
+                        ov = {'o': [[g['n'], ({'s': cps(rng.choice(words))} if rng.random() < 0.8 else None)] for g in f['t']['fields']]}
+                        if all(x is None for _, x in ov['o']):
+                            ov['o'][0][1] = {'s': cps('report.wsdl')}
+                        val['o'].append([f['n'], {'l': [ov]} if f['many'] else ov])
+                    elif f['t']['k'] == 'str':
+                        val['o'].append([f['n'], {'s': cps(rng.choice(words))}])
+                    else:
+                        val['o'].append([f['n'], {'i': str(rng.randrange(100))}])
+                pairs = spell(rng, sig, val, '.')
+                perms = list(itertools.permutations(pairs)) if len(pairs) <= 4 else \
+                    [pairs[i:] + pairs[:i] for i in range(len(pairs))] + [permute_pairs(rng, pairs) for _ in range(6)]
+                for pp in perms:
+                    qs = render_qs(rng, list(pp), rng.choice([0, 3, 4, 4]))
+                    r, st, body = impl.get(qs)
+                    add({'op': 'http.get', 'cfg': cfg, 'fields': mf, 'qs': cps(qs)}, r)
+                    ctx.cov['traces_validated_against_impl'] += 1
+                    genuine = is_wsdl_qs(qs)
+                    ctx.hit('wsdl:%s' % ('genuine-request' if genuine else
+                                         'ends-with-wsdl' if qs.lower().endswith('wsdl') else
+                                         'contains-wsdl' if 'wsdl' in qs.lower() else 'plain'))
+                    exp = {'wsdl': True} if genuine else {'ok': val}
+                    if r != exp:
+                        ctx.hit('t3-fail:wsdl-shortcut')
+                        ctx.finding('documented:wsdl-shortcut', 'query %r: %s, got %s' % (
+                            qs[:300], 'a request for the WSDL' if genuine else
+                            'not a request for the WSDL (the text before the first = is not wsdl): the method must be called '
+                            'with the spelled values', core.canon(r)[:300]),
+                            {'op': 'documented', 'fields': sig, 'cfg': cfg, 'qs': qs, 'expected': val})
 
 
 def t2_returns(ctx, g, add):
@@ -1474,6 +1729,7 @@ def part_c05(ctx):
         for n in range(1, top + 1):
             c05_flat_verdicts(ctx, fc, {'o': ['f', [['m', {'l': [{'i': str(j)} for j in range(n)]}]]]}, 'occurs', add)
         c05_flat_verdicts(ctx, fc, {'o': ['f', [['m', None]]]}, 'occurs', add)
+    t3_history(ctx, add, c05=True)
     if Q:
         # the C03 driver is not among C05's own targets: make sure it is built against the facts of THIS run
         rc, out = core.sh(['lake', 'build', 'Driver.C03'], cwd=core.LEAN, timeout=3000)
@@ -1518,14 +1774,26 @@ def replay(ctx, obj):
             return core.canon(ctx.model([q], driver='C03')[0])
         except Exception as e:
             return '(not available: %s)' % e
+    if op == 'history':
+        impl, sig, r0 = history_setup(obj)
+        r, st, body = impl.get(obj['qs'])
+        print('warm    :', obj['warm'], '->', core.canon(r0)[:200])
+        print('then    : %s_field(%r)' % (obj['how'], uncps(obj['new']['n'])))
+        print('query   :', obj['qs'], '(expected: %s)' % ('delivered' if obj['good'] else 'rejected'))
+        print('impl    :', core.canon(r)[:400], st.get('status'))
+        print('model   :', model({'op': 'http.get', 'cfg': obj['cfg'], 'fields': model_fields(sig), 'qs': cps(obj['qs'])}))
+        if obj['good']:
+            return 0 if ('ok' in r and core.canon(obj['leaf']) in core.canon(r)) else 1
+        return 0 if 'fault' in r else 1
     if op == 'documented':
         impl = Impl(obj['fields'], obj['cfg'])
         r, st, body = impl.get(obj['qs'])
         print('query   :', obj['qs'])
-        print('expected:', core.canon({'ok': obj['expected']}))
+        exp = {'wsdl': True} if is_wsdl_qs(obj['qs']) else {'ok': obj['expected']}
+        print('expected:', core.canon(exp))
         print('impl    :', core.canon(r), st.get('status'), body[:200])
         print('model   :', model({'op': 'http.get', 'cfg': obj['cfg'], 'fields': model_fields(obj['fields']), 'qs': cps(obj['qs'])}))
-        return 0 if r == {'ok': obj['expected']} else 1
+        return 0 if r == exp else 1
     if op == 'verdict':
         impl = Impl(obj['fields'], obj['cfg'])
         r, st, body = impl.get(obj['qs'])
